@@ -8,7 +8,7 @@ from ..context import DEFAULT_SQL_CONTEXT, SqlContext
 from ..enums import Dialects
 from ..queries import Query, QueryBuilder, Table
 from ..terms import ValueWrapper
-from ..utils import builder, format_alias_sql, format_quotes
+from ..utils import builder, format_alias_sql, format_identifier, format_quotes
 
 
 class MySQLQuery(Query):
@@ -93,7 +93,7 @@ class MySQLQueryBuilder(QueryBuilder):
                     updates.append(
                         "{field}={alias}.{value}".format(
                             field=field.get_sql(on_conflict_ctx),
-                            alias=format_quotes(self.alias, ctx.quote_char),
+                            alias=format_identifier(self.alias, ctx.quote_char),
                             value=field.get_sql(on_conflict_ctx),
                         )
                     )
